@@ -99,6 +99,14 @@ def obligations(tier, rng):
         N = max(4, h + 2)
         P = '1/2' if (refsem.has(f, set(FR_UNT)) and rng.random() < 0.4) else '1'
         out.append(ob('C19', 'grid', 'F2/%s/P=%s/N=%d' % (text(f), P, N), f=f, N=N, P=P, max_paths=40000, wall=1200))
+    # nestings of the unbounded past operators (they share visitor fields in the dense-time monitor)
+    for k1 in ('once', 'historically'):
+        for k2 in ('once', 'historically'):
+            for f in [(k1, (k2, X)), (k1, ('or', X, (k2, Y))), (k1, ('and', (k2, X), Y)), (k1, ('implies', X, (k2, Y))),
+                      ('and', (k1, X), (k2, Y)), (k1, ('not', (k2, X)))]:
+                out.append(ob('C19', 'grid', 'nest/%s/N=4' % text(f), f=f, N=4, P='1', max_paths=40000, wall=1200))
+                if k1 != k2:
+                    out.append(ob('C19', 'grid', 'nest-online/%s/N=3' % text(f), f=f, N=3, P='1', mode='online', max_paths=40000, wall=1200))
     # specification-shaped examples
     for f in [('implies', ('geq', X, ('const', 3.0)), ('eventually_t', ('geq', Y, ('const', 3.0)), 0, 2)),
               ('always_t', ('or', ('leq', X, Y), ('once_t', ('gt', Y, ('const', 0.0)), 0, 1)), 0, 2),
